@@ -93,6 +93,9 @@ def run(chk):
             continue
         if '"' not in e:
             shapes.append(e)
+    # sign adjacency, in every tier: a prefix + / - (or a negative literal) next to a binary + / - must not fuse into ++ / --
+    shapes += ["x - -y", "x + +y", "x - +y", "x + -y", "x - -1", "x + +1", "x - - -y", "- -x", "+ +x", "- +x", "x - -y - -z", "x + +y + +z", "-x - -y", "x - (-y)", "x + (+y)",
+               "x - -y.z", "x + +y[0]", "typeof -x", "void -x - -y", "!-x", "x - -(y)", "x * -y", "x / -y", "x % +y", "x < -y", "x > +y", "x - (-1)", "(x - -y) - -z"]
     for j in range(0, len(shapes), 12):
         body = "".join('<v data-a="{{ %s }}" wx:if="{{ %s }}">{{ %s }}<block wx:for="{{ %s }}">{{index}}</block></v>' % (e, e, e, e) for e in shapes[j:j + 12])
         body += '<template name="t">{{p}}</template>' + "".join('<template is="t" data="{{ p: %s, ...%s }}"/>' % (e, e) for e in shapes[j:j + 12] if not e.startswith("{"))
